@@ -261,7 +261,8 @@ impl InnerFilter {
     }
 
     fn progress_filtertime(&mut self, time: Time, wander: f64, config: &KalmanConfiguration) {
-        debug_assert!(time >= self.filter_time);
+        // Can happen with wire input: a negative correctionField puts a measurement's
+        // event time ahead of the clock reading reported by a later frequency change.
         if time < self.filter_time {
             return;
         }
